@@ -169,6 +169,7 @@ func (r *UDPReceiver) receiveRoutine(udpconn *net.UDPConn) (err error) {
 			packetPool.Put(pkt)
 			return err
 		}
+		verifEvent("udp.read", pkt.size, &pkt.payload[0])
 		pkt.dst = localAddr
 		pkt.received = time.Now().UTC()
 		if pkt.size == 0 {
